@@ -212,7 +212,7 @@ def task(prop, seed, size_, cfgbins):
 
 def run(prop, tier, seed, t0):
     from .. import plan
-    cfgs = plan.ALL_CFGS
+    cfgs = plan.ALL_CFGS + ['simd-legacy']
     bins, notes, failed = plan.bins_for(cfgs, ('rel', 'chk') if tier == 'thorough' else ('rel',))
     if failed:
         return plan.fail_build(prop, failed)
